@@ -81,6 +81,10 @@ lines.append("Each sub-agent saw only the text of one property and a scratch "
              "(new feature or option with a default / adaptation to a newer "
              "library API / robustness clean-up), preferring silent "
              "failures outside the obvious function; again 18 of 20 were "
+             "caught as the checks stood. Round 15 (S15-*): bug-fix, "
+             "consistency and simplification pull requests (a fix that "
+             "over-corrects, two places made alike although one had a reason "
+             "to differ, 'dead' code that was load-bearing); all 20 were "
              "caught as the checks stood. %d changes in total: %d rejected as outside the "
              "quantified domain (marked), %d not detected (marked, a "
              "documented limit), %d detected; "
